@@ -49,6 +49,7 @@ RECURSIVE VarNamesList(_)
 VarNamesList(xs) == IF xs = <<>> THEN <<>> ELSE VarNames(xs[1]) \o VarNamesList(Tail(xs))
 VarNames(n) == LET d == Nd(n) IN
   CASE d.ty = "decl" -> IF d.kind = "var" THEN <<d.name>> ELSE <<>>
+    [] d.ty = "ddecl" -> IF d.kind = "var" THEN d.names ELSE <<>>
     [] d.ty = "block" -> VarNamesList(d.xs)
     [] d.ty = "if" -> VarNames(d.b) \o (IF d.c # 0 THEN VarNames(d.c) ELSE <<>>)
     [] d.ty \in {"while", "dowhile"} -> VarNames(d.b)
@@ -59,11 +60,14 @@ VarNames(n) == LET d == Nd(n) IN
     [] d.ty = "switch" -> VarNamesList(FlatBodies(d.bodies))
     [] OTHER -> <<>>
 \* declare hoisted names of a statement list into scope e (block-level) and fe (function-level vars)
+RECURSIVE DeclareAll(_, _, _, _)
+DeclareAll(h, e, names, mut) == IF names = <<>> THEN h ELSE DeclareAll(Declare(h, e, names[1], U, FALSE, mut), e, Tail(names), mut)
 RECURSIVE HoistLex(_, _, _)
 HoistLex(h, e, xs) ==
   IF xs = <<>> THEN h
   ELSE LET d == Nd(xs[1]) IN
        LET h1 == CASE d.ty = "decl" /\ d.kind \in {"let", "const"} -> Declare(h, e, d.name, U, FALSE, d.kind = "let")
+                   [] d.ty = "ddecl" /\ d.kind \in {"let", "const"} -> DeclareAll(h, e, d.names, d.kind = "let")
                    [] d.ty = "funcdecl" -> LET h2 == Append(h, [k |-> "fun", params |-> d.params, defs |-> d.defs, body |-> d.body, env |-> e, name |-> d.name, arrow |-> FALSE, gen |-> (d.gen = 1)])
                                            IN Declare(h2, e, d.name, Fun(Len(h2)), TRUE, TRUE)
                    [] OTHER -> h
@@ -168,6 +172,11 @@ BinP(op, a, b) ==
     [] op = "==" -> B(LooseEq(a, b))
     [] op = "!=" -> B(~LooseEq(a, b))
 Bin(op, a, b) == IF op \notin {"===", "!=="} /\ (ToPrim(a).t = "big" \/ ToPrim(b).t = "big") THEN Big ELSE BinP(op, a, b)
+\* the result of a binary operator, or Big when it is outside the model: error objects are modelled by their class only (whether
+\* two of them are the same object is not known) and the text of an error or of a function is engine-specific
+BinX(op, l, v) == LET r == Bin(op, l, v) IN
+  IF r.t = "big" \/ (op \in {"==", "!=", "===", "!=="} /\ l.t = "err" /\ v.t = "err")
+                \/ (op \in {"+", "<", "<=", ">", ">="} /\ (l.t \in {"fun", "err"} \/ v.t \in {"fun", "err"})) THEN Big ELSE r
 UnP(op, a) ==
   CASE op = "-" -> Neg(ToNumberP(ToPrim(a)))
     [] op = "+" -> ToNumberP(ToPrim(a))
@@ -271,7 +280,7 @@ StepFeat ==
     LET d == Nd(ctl.n) IN
     (IF d.ty = "try" /\ \E i \in 1..Len(k) : k[i].f = "fin" /\ k[i].pend.c # "normal" THEN {"fin_nested_try"} ELSE {})
     \* a reference that resolves to a binding still in its temporal dead zone while an enclosing scope has a binding of that name
-    \cup (IF d.ty \in {"var", "typeofvar", "update", "lassignv"} /\ TdzShadow(d.name) THEN {"tdz_shadow"} ELSE {})
+    \cup (IF d.ty \in {"var", "typeofvar", "update", "lassignv", "cassignv"} /\ TdzShadow(d.name) THEN {"tdz_shadow"} ELSE {})
     \cup (IF d.ty = "this" /\ FindEnv(heap, env, "this") = NoEnv THEN {"toplevel_this"} ELSE {})
     \cup (IF d.ty = "this" /\ (\E i \in 1..Len(out) : out[i].e = "order") THEN {"this_after_suspend"} ELSE {})
     \cup
@@ -300,6 +309,35 @@ EnterList(n, xs, fresh, funcEnv) ==
         ELSE /\ ctl' = Ev(xs[1]) /\ k' = <<[f |-> "list", xs |-> xs, i |-> 1], [f |-> "popenv", e |-> env]>> \o k
      /\ UNCHANGED out
 
+ElemExpr(n) == IF Nd(n).ty = "spread" THEN Nd(n).a ELSE n       \* the expression to evaluate for an array-literal element
+\* ---- destructuring declarations: the elements of an iterable source (arrays and strings are modelled), or "type" / "unmodelled"
+IterElems(h, v) ==
+  IF v.t = "ref" /\ h[v.a].k = "arr" THEN [r |-> "ok", es |-> h[v.a].e]
+  ELSE IF v.t = "str" THEN [r |-> "ok", es |-> [i \in 1..Len(v.s) |-> S(<<v.s[i]>>)]]
+  ELSE IF v.t = "ref" /\ h[v.a].k = "gen" THEN [r |-> "unmodelled", es |-> <<>>]
+  ELSE [r |-> "type", es |-> <<>>]
+\* the i-th target of pattern d from source base: arrays read position i, objects read the property key
+PatValue(h, d, base, es, i) ==
+  IF d.shape = "arr" THEN (IF i <= Len(es) THEN es[i] ELSE U) ELSE GetProp(h, base, d.keys[i]).v
+\* the object collected by `...rest` of an object pattern: own properties whose key is not listed
+RestObj(o, keys) == LET idx == SelectSeq([i \in 1..Len(o.ks) |-> i], LAMBDA i : \A j \in 1..Len(keys) : keys[j] # o.ks[i]) IN
+   [k |-> "obj", ks |-> [i \in 1..Len(idx) |-> o.ks[idx[i]]], vs |-> [i \in 1..Len(idx) |-> o.vs[idx[i]]]]
+\* bind target i (or the rest element when i = Len(names)+1 ...) - one step of the binding loop
+DBind(n, base, es, i, rest) == LET d == Nd(n) IN
+  IF i > Len(d.names) THEN Go(RetV(U)) /\ k' = rest /\ Same
+  ELSE IF d.rest = 1 /\ i = Len(d.names) THEN
+       \* the last name collects what is left
+       (IF d.shape = "arr" THEN
+            LET h1 == Append(heap, [k |-> "arr", e |-> IF i <= Len(es) THEN SubSeq(es, i, Len(es)) ELSE <<>>])
+            IN heap' = SetBinding(h1, FindEnv(h1, env, d.names[i]), d.names[i], Ref(Len(h1))) /\ UNCHANGED <<env, out>> /\ Go(RetV(U)) /\ k' = rest
+        ELSE IF base.t = "ref" /\ heap[base.a].k = "obj" THEN
+            LET h1 == Append(heap, RestObj(heap[base.a], SubSeq(d.keys, 1, i - 1)))
+            IN heap' = SetBinding(h1, FindEnv(h1, env, d.names[i]), d.names[i], Ref(Len(h1))) /\ UNCHANGED <<env, out>> /\ Go(RetV(U)) /\ k' = rest
+        ELSE Go(Ret(Abrupt("unmodelled", U, ""))) /\ k' = rest /\ Same)
+  ELSE LET v == PatValue(heap, d, base, es, i) IN
+       IF v.t = "undef" /\ d.defs[i] # 0 THEN Go(Ev(d.defs[i])) /\ k' = <<[f |-> "ddD", n |-> n, base |-> base, es |-> es, i |-> i]>> \o rest /\ Same
+       ELSE /\ heap' = SetBinding(heap, FindEnv(heap, env, d.names[i]), d.names[i], v) /\ UNCHANGED <<env, out>>
+            /\ Go(RetV(U)) /\ k' = <<[f |-> "ddN", n |-> n, base |-> base, es |-> es, i |-> i + 1]>> \o rest
 \* a label directly in front of a loop names the loop: break L and continue L are addressed to it
 LblOf(kk) == IF kk # <<>> /\ Head(kk).f = "label" THEN Head(kk).l ELSE ""
 \* ---- for (init; test; update) body.  With `let` in the head every iteration runs in a fresh copy of the loop
@@ -352,6 +390,18 @@ StepEv(n) == LET d == Nd(n) IN
               ELSE IF Short(d.op, b.v) THEN Go(RetV(b.v)) /\ UNCHANGED k /\ Same
               ELSE Go(Ev(d.a)) /\ Push([f |-> "assign", n |-> n]) /\ Same
     [] d.ty = "lassignm" -> Go(Ev(d.a)) /\ Push([f |-> "lasgM", n |-> n]) /\ Same      \* o.k ||= e ... : the base is evaluated once
+    [] d.ty = "cassignv" ->      \* x op= e : the current value is read BEFORE the right-hand side runs, the assignment happens after
+         LET e == FindEnv(heap, env, d.name) IN
+         IF e = NoEnv THEN Go(Ret(Throw(Err("ReferenceError")))) /\ UNCHANGED k /\ Same
+         ELSE LET b == heap[e].vars[VarIdx(heap, e, d.name)] IN
+              IF ~b.init THEN Go(Ret(Throw(Err("ReferenceError")))) /\ UNCHANGED k /\ Same
+              ELSE Go(Ev(d.a)) /\ Push([f |-> "casgV", n |-> n, l |-> b.v]) /\ Same
+    [] d.ty = "cassignm" -> Go(Ev(d.a)) /\ Push([f |-> "casgM", n |-> n]) /\ Same      \* o.k op= e
+    [] d.ty = "tmpl" -> IF d.xs = <<>> THEN Go(RetV(S(d.quasis[1]))) /\ UNCHANGED k /\ Same
+                        ELSE Go(Ev(d.xs[1])) /\ Push([f |-> "tmpl", n |-> n, i |-> 1, acc |-> d.quasis[1]]) /\ Same
+    [] d.ty = "ochain" -> Go(Ev(d.a)) /\ Push([f |-> "ochain", n |-> n, i |-> 0]) /\ Same   \* a?.[k1][k2]... : only the first link is optional
+    [] d.ty = "spread" -> Go(Ret(Abrupt("unmodelled", U, ""))) /\ UNCHANGED k /\ Same     \* only meaningful inside an array literal (handled there)
+    [] d.ty = "ddecl" -> Go(Ev(d.a)) /\ Push([f |-> "ddA", n |-> n]) /\ Same
     [] d.ty = "bin" -> Go(Ev(d.a)) /\ Push([f |-> "binL", n |-> n]) /\ Same
     [] d.ty = "logical" -> Go(Ev(d.a)) /\ Push([f |-> "logical", n |-> n]) /\ Same
     [] d.ty = "unary" ->
@@ -377,7 +427,7 @@ StepEv(n) == LET d == Nd(n) IN
     [] d.ty = "order" -> Go(Ev(d.a)) /\ Push([f |-> "order"]) /\ Same
     [] d.ty = "yield" -> IF d.a = 0 THEN Go(RetV(U)) /\ Push([f |-> "yield"]) /\ Same ELSE Go(Ev(d.a)) /\ Push([f |-> "yield"]) /\ Same
     [] d.ty = "arrlit" -> IF d.xs = <<>> THEN /\ heap' = Append(heap, [k |-> "arr", e |-> <<>>]) /\ Go(RetV(Ref(Len(heap) + 1))) /\ UNCHANGED <<k, env, out>>
-                          ELSE Go(Ev(d.xs[1])) /\ Push([f |-> "arrlit", xs |-> d.xs, acc |-> <<>>]) /\ Same
+                          ELSE Go(Ev(ElemExpr(d.xs[1]))) /\ Push([f |-> "arrlit", xs |-> d.xs, acc |-> <<>>, i |-> 1]) /\ Same
     [] d.ty = "objlit" -> IF d.vals = <<>> THEN /\ heap' = Append(heap, [k |-> "obj", ks |-> <<>>, vs |-> <<>>]) /\ Go(RetV(Ref(Len(heap) + 1))) /\ UNCHANGED <<k, env, out>>
                           ELSE Go(Ev(d.vals[1])) /\ Push([f |-> "objlit", n |-> n, acc |-> <<>>]) /\ Same
     [] d.ty = "member" -> Go(Ev(d.a)) /\ Push([f |-> "member", key |-> d.key]) /\ Same
@@ -503,11 +553,8 @@ StepRet == LET c == ctl.c IN
                ELSE IF ToPrim(f.l).t = "big" THEN Go(Ret(Abrupt("unmodelled", U, ""))) /\ k' = rest /\ Same
                ELSE LET r == HasProp(heap, v, KeyOf(heap, f.l)) IN
                     Go(IF r = "unmodelled" THEN Ret(Abrupt("unmodelled", U, "")) ELSE RetV(B(r = "t"))) /\ k' = rest /\ Same
-          [] f.f = "binR" /\ Nd(f.n).op # "in" -> LET r == Bin(Nd(f.n).op, f.l, v) IN
-                             \* error objects are modelled by their class only: whether two of them are the same object is not known
-                             Go(IF r.t = "big" \/ (Nd(f.n).op \in {"==", "!=", "===", "!=="} /\ f.l.t = "err" /\ v.t = "err")
-                                   \* the text of an error or of a function is engine-specific: results that depend on it are outside the model
-                                   \/ (Nd(f.n).op \in {"+", "<", "<=", ">", ">="} /\ (f.l.t \in {"fun", "err"} \/ v.t \in {"fun", "err"})) THEN Ret(Abrupt("unmodelled", U, "")) ELSE RetV(r)) /\ k' = rest /\ Same
+          [] f.f = "binR" /\ Nd(f.n).op # "in" -> LET r == BinX(Nd(f.n).op, f.l, v) IN
+                             Go(IF r.t = "big" THEN Ret(Abrupt("unmodelled", U, "")) ELSE RetV(r)) /\ k' = rest /\ Same
           [] f.f = "logical" ->
                LET op == Nd(f.n).op
                    short == CASE op = "&&" -> ~ToBoolean(v) [] op = "||" -> ToBoolean(v) [] op = "??" -> v.t \notin {"undef", "null"} IN
@@ -527,9 +574,14 @@ StepRet == LET c == ctl.c IN
                /\ Go(IF r.k = "err" THEN Ret(Throw(S(<<84,121,112,101,69,114,114,111,114,58,32,98,111,111,109>>))) ELSE RetV(N(r.v)))
                /\ k' = rest /\ UNCHANGED <<env, heap>>
           [] f.f = "arrlit" ->
-               LET acc == Append(f.acc, v) IN
-               IF Len(acc) = Len(f.xs) THEN /\ heap' = Append(heap, [k |-> "arr", e |-> acc]) /\ Go(RetV(Ref(Len(heap) + 1))) /\ k' = rest /\ UNCHANGED <<env, out>>
-               ELSE Go(Ev(f.xs[Len(acc) + 1])) /\ k' = <<[f EXCEPT !.acc = acc]>> \o rest /\ Same
+               \* element f.i has been evaluated; a spread element contributes every element of its (iterable) operand
+               LET sp == Nd(f.xs[f.i]).ty = "spread"
+                   it == IF sp THEN IterElems(heap, v) ELSE [r |-> "ok", es |-> <<v>>]
+                   acc == f.acc \o it.es IN
+               IF it.r = "type" THEN Go(Ret(Throw(Err("TypeError")))) /\ k' = rest /\ Same
+               ELSE IF it.r = "unmodelled" THEN Go(Ret(Abrupt("unmodelled", U, ""))) /\ k' = rest /\ Same
+               ELSE IF f.i = Len(f.xs) THEN /\ heap' = Append(heap, [k |-> "arr", e |-> acc]) /\ Go(RetV(Ref(Len(heap) + 1))) /\ k' = rest /\ UNCHANGED <<env, out>>
+               ELSE Go(Ev(ElemExpr(f.xs[f.i + 1]))) /\ k' = <<[f EXCEPT !.acc = acc, !.i = f.i + 1]>> \o rest /\ Same
           [] f.f = "objlit" ->
                LET d == Nd(f.n) acc == Append(f.acc, v) IN
                IF Len(acc) = Len(d.vals) THEN
@@ -550,6 +602,44 @@ StepRet == LET c == ctl.c IN
                IF f.base.t \in {"undef", "null"} THEN Go(Ret(Throw(Err("TypeError")))) /\ k' = rest /\ Same
                ELSE IF f.base.t \in {"fun", "err"} \/ v.t \in {"fun", "err"} \/ ToPrim(v).t = "big" THEN Go(Ret(Abrupt("unmodelled", U, ""))) /\ k' = rest /\ Same
                ELSE LET g == GetProp(heap, f.base, KeyOf(heap, v)) IN Go(RetV(g.v)) /\ k' = rest /\ Same
+          [] f.f = "casgV" -> LET r == BinX(Nd(f.n).op, f.l, v) IN
+               IF r.t = "big" THEN Go(Ret(Abrupt("unmodelled", U, ""))) /\ k' = rest /\ Same
+               ELSE Go(RetV(r)) /\ k' = <<[f |-> "assign", n |-> f.n]>> \o rest /\ Same
+          [] f.f = "casgM" ->
+               LET d == Nd(f.n) IN
+               IF v.t \in {"undef", "null"} THEN Go(Ret(Throw(Err("TypeError")))) /\ k' = rest /\ Same
+               ELSE IF v.t \in {"fun", "err"} \/ (v.t = "ref" /\ heap[v.a].k = "gen") THEN Go(Ret(Abrupt("unmodelled", U, ""))) /\ k' = rest /\ Same
+               ELSE Go(Ev(d.c)) /\ k' = <<[f |-> "casgM2", n |-> f.n, base |-> v, cur |-> GetProp(heap, v, d.key).v]>> \o rest /\ Same
+          [] f.f = "casgM2" -> LET r == BinX(Nd(f.n).op, f.cur, v) IN
+               IF r.t = "big" THEN Go(Ret(Abrupt("unmodelled", U, ""))) /\ k' = rest /\ Same
+               ELSE Go(RetV(r)) /\ k' = <<[f |-> "setmB", base |-> f.base, key |-> Nd(f.n).key]>> \o rest /\ Same
+          [] f.f = "tmpl" ->
+               \* ToString of the substitution (objects through ToPrimitive); the text of functions and errors is engine-specific
+               LET d == Nd(f.n) p == ToPrim(v) IN
+               IF v.t \in {"fun", "err"} \/ p.t = "big" THEN Go(Ret(Abrupt("unmodelled", U, ""))) /\ k' = rest /\ Same
+               ELSE LET acc == f.acc \o ToStringP(p) \o d.quasis[f.i + 1] IN
+                    IF f.i = Len(d.xs) THEN Go(RetV(S(acc))) /\ k' = rest /\ Same
+                    ELSE Go(Ev(d.xs[f.i + 1])) /\ k' = <<[f EXCEPT !.i = f.i + 1, !.acc = acc]>> \o rest /\ Same
+          [] f.f = "ochain" ->
+               LET d == Nd(f.n) IN
+               IF f.i = 0 /\ v.t \in {"undef", "null"} THEN Go(RetV(U)) /\ k' = rest /\ Same       \* the whole chain short-circuits
+               ELSE IF v.t \in {"fun", "err"} THEN Go(Ret(Abrupt("unmodelled", U, ""))) /\ k' = rest /\ Same
+               ELSE LET g == GetProp(heap, v, d.keys[f.i + 1]) IN
+                    IF ~g.ok THEN Go(Ret(Throw(Err("TypeError")))) /\ k' = rest /\ Same
+                    ELSE IF f.i + 1 = Len(d.keys) THEN Go(RetV(g.v)) /\ k' = rest /\ Same
+                    ELSE Go(RetV(g.v)) /\ k' = <<[f EXCEPT !.i = f.i + 1]>> \o rest /\ Same
+          [] f.f = "ddA" ->
+               \* the source value is known: array patterns need an iterable, object patterns anything but null / undefined
+               LET d == Nd(f.n) it == IF d.shape = "arr" THEN IterElems(heap, v) ELSE [r |-> "ok", es |-> <<>>] IN
+               IF d.shape = "obj" /\ v.t \in {"undef", "null"} THEN Go(Ret(Throw(Err("TypeError")))) /\ k' = rest /\ Same
+               ELSE IF d.shape = "obj" /\ (v.t \in {"fun", "err"} \/ (v.t = "ref" /\ heap[v.a].k = "gen")) THEN Go(Ret(Abrupt("unmodelled", U, ""))) /\ k' = rest /\ Same
+               ELSE IF it.r = "type" THEN Go(Ret(Throw(Err("TypeError")))) /\ k' = rest /\ Same
+               ELSE IF it.r = "unmodelled" THEN Go(Ret(Abrupt("unmodelled", U, ""))) /\ k' = rest /\ Same
+               ELSE DBind(f.n, v, it.es, 1, rest)
+          [] f.f = "ddN" -> DBind(f.n, f.base, f.es, f.i, rest)
+          [] f.f = "ddD" ->     \* a default initialiser has been evaluated for target f.i
+               /\ heap' = SetBinding(heap, FindEnv(heap, env, Nd(f.n).names[f.i]), Nd(f.n).names[f.i], v) /\ UNCHANGED <<env, out>>
+               /\ Go(RetV(U)) /\ k' = <<[f |-> "ddN", n |-> f.n, base |-> f.base, es |-> f.es, i |-> f.i + 1]>> \o rest
           [] f.f = "lasgM" ->
                LET d == Nd(f.n) IN
                IF v.t \in {"undef", "null"} THEN Go(Ret(Throw(Err("TypeError")))) /\ k' = rest /\ Same
